@@ -266,8 +266,11 @@ def run(ctx, report: Report) -> None:
 
     # ---- R7 (the whole pipeline by interpretation, bounded) --------------------------------------------------------------
     r7 = report.rule('C12-R7', 'namespace selectors on a tree of mixed namespaces under two prefix maps (whole pipeline; bounded)', floor=12)
-    from .e2ematch import namespace_table
+    from .e2ematch import default_namespace_state_table, namespace_table
     namespace_table(ctx, r7)
+    # a default namespace in the caller's map restricts the caller's own unprefixed names only - not the names inside the built-in
+    # definitions of the HTML pseudo-classes
+    default_namespace_state_table(ctx, r7)
 
 
 
